@@ -156,3 +156,31 @@ fn c11_cache_history_3_reach() {
     kani::cover!(cache.hit > 1 && cache.miss > 0);
     std::mem::forget(cache);
 }
+
+/// C03-b (validation kernel): `validate` accepts exactly the inputs whose reduced temperature, volume and
+/// mole numbers are all finite and not sign-negative — for every bit pattern of the four f64 payloads
+/// (2 components).  The reduced values are obtained the way `validate` itself obtains them.
+#[kani::proof]
+#[kani::unwind(4)]
+fn c03_validate_all_bits() {
+    use crate::ReferenceSystem;
+    use ndarray::arr1;
+    use quantity::*;
+    let t: f64 = kani::any();
+    let v: f64 = kani::any();
+    let n0: f64 = kani::any();
+    let n1: f64 = kani::any();
+    let temperature = Temperature::from_reduced(t);
+    let volume = Volume::from_reduced(v);
+    let moles = Moles::from_reduced(arr1(&[n0, n1]));
+    let good = |x: f64| x.is_finite() && !x.is_sign_negative();
+    let m = moles.to_reduced();
+    let want = good(temperature.to_reduced()) && good(volume.to_reduced()) && good(m[0]) && good(m[1]);
+    let r = super::validate(temperature, volume, &moles);
+    assert!(r.is_ok() == want);
+    kani::cover!(r.is_ok());
+    kani::cover!(r.is_err());
+    std::mem::forget(r);
+    std::mem::forget(moles);
+    std::mem::forget(m);
+}
